@@ -35,6 +35,9 @@ func vfC07GenCfg(rt *rapid.T) *vfxCfg {
 	for i := 0; i < 3; i++ {
 		c.Paths = append(c.Paths, vfxPathCfg{Prefix: fmt.Sprintf("/p%d", i), ClientMax: vfC07GenLimit(rt, fmt.Sprintf("path%d-clientMax", i))})
 	}
+	// a fourth path whose backend answers by itself (Mock filter) and never looks at the request
+	// context or the body: what the mux decides about the body is then all that protects it
+	c.Paths = append(c.Paths, vfxPathCfg{Prefix: "/p3", ClientMax: vfC07GenLimit(rt, "localpath-clientMax"), Local: true})
 	c.ProxyServerMax = vfC07GenLimit(rt, "proxy-serverMax")
 	// candidate pool first in the YAML or last: order must not matter (exactly one pool has no filter)
 	main := vfxPoolCfg{ServerMax: vfC07GenLimit(rt, "mainpool-serverMax")}
@@ -183,6 +186,7 @@ type vfC07Case struct {
 	Encoding     string // cl | chunked | lying | cut (response direction: chunked body torn in a chunk, or its terminating chunk missing)
 	CutAt        int    // cut: bytes of the body that leave the backend before it drops the connection (-1: all of them, only the terminating chunk is missing)
 	Mirrored     bool   // the request carries the header the mirrorPool matches
+	Local        bool   // request direction: the path's backend is the local Mock pipeline
 	LieExtra     int
 	Chunks       []int
 	Split        int
@@ -197,12 +201,25 @@ type vfC07Case struct {
 
 func vfC07GenCase(rt *rapid.T, c *vfxCfg, thorough bool) (k vfC07Case, eff int64, inherited bool) {
 	k.Dir = rapid.SampledFrom([]string{"req", "resp"}).Draw(rt, "direction")
-	k.PathIdx = rapid.IntRange(0, len(c.Paths)-1).Draw(rt, "path")
+	k.PathIdx = rapid.IntRange(0, len(c.Paths)-2).Draw(rt, "path") // the last path is the local one
+	if k.Dir == "req" && rapid.IntRange(0, 2).Draw(rt, "local-backend-path") == 0 {
+		k.PathIdx = len(c.Paths) - 1
+	}
+	k.Local = c.Paths[k.PathIdx].Local
 	k.Pool = rapid.SampledFrom([]string{"", "b"}).Draw(rt, "pool")
 	k.Seed = uint32(rapid.IntRange(1, 1<<20).Draw(rt, "bodyseed"))
 	k.Encoding = rapid.SampledFrom([]string{"cl", "cl", "chunked", "chunked", "lying"}).Draw(rt, "encoding")
 	k.LieExtra = rapid.SampledFrom([]int{1, 1, 100}).Draw(rt, "lie-extra")
-	if c.Mirror {
+	if k.Dir == "req" && rapid.IntRange(0, 5).Draw(rt, "client-cuts-chunked-upload") == 0 {
+		// a chunked upload that is torn: the client half-closes where the terminating chunk should
+		// come, or inside a chunk (the last chunk announces LieExtra more bytes than are sent)
+		k.Encoding = "cut"
+		k.CutAt = -1
+		if rapid.Bool().Draw(rt, "upload-torn-inside-chunk") {
+			k.CutAt = 0 // 0: torn inside the last chunk
+		}
+	}
+	if c.Mirror && !k.Local {
 		k.Mirrored = rapid.IntRange(0, 3).Draw(rt, "mirrored") != 0
 	}
 	if k.Dir == "req" {
@@ -221,6 +238,12 @@ func vfC07GenCase(rt *rapid.T, c *vfxCfg, thorough bool) (k vfC07Case, eff int64
 		k.Status = rapid.SampledFrom([]int{200, 200, 203, 404, 503}).Draw(rt, "status")
 	}
 	k.Size = vfC07GenSize(rt, eff, k.Dir, thorough)
+	if k.Dir == "req" && k.Encoding == "cut" && eff >= 0 && eff <= 65536 && rapid.Bool().Draw(rt, "upload-torn-after-exactly-limit-bytes") {
+		k.Size = int(eff) // where the limit check itself stops reading: only the probe behind it can notice the tear
+	}
+	if k.Local && eff < 0 && (k.Encoding == "lying" || k.Encoding == "cut") {
+		k.Encoding = "chunked" // a streamed body nobody reads: its shortfall cannot be known to anybody
+	}
 	if k.Dir == "resp" && k.Size > 0 && rapid.IntRange(0, 7).Draw(rt, "backend-cuts-chunked-body") == 0 {
 		// the backend promises a chunked body and drops the connection before it is complete
 		k.Encoding = "cut"
@@ -229,7 +252,7 @@ func vfC07GenCase(rt *rapid.T, c *vfxCfg, thorough bool) (k vfC07Case, eff int64
 	k.Reps = rapid.SampledFrom([]int{1, 2, 2, 3}).Draw(rt, "repetitions")
 	k.CType = rapid.SampledFrom([]string{"", "text/plain", "application/json", "application/octet-stream", "text/event-stream", "text/event-stream; charset=utf-8",
 		"Text/Event-Stream", "text/html", "application/grpc", "multipart/form-data; boundary=vfb"}).Draw(rt, "backend-content-type")
-	if k.Dir == "req" && c.RetryAttempts > 0 && k.Encoding != "lying" && (eff < 0 || int64(k.Size) <= eff) && rapid.Bool().Draw(rt, "failing-attempts") {
+	if k.Dir == "req" && !k.Local && c.RetryAttempts > 0 && k.Encoding != "lying" && k.Encoding != "cut" && (eff < 0 || int64(k.Size) <= eff) && rapid.Bool().Draw(rt, "failing-attempts") {
 		n := rapid.IntRange(1, c.RetryAttempts-1).Draw(rt, "nfailing")
 		for j := 0; j < n; j++ {
 			k.Pre = append(k.Pre, rapid.SampledFrom([]int{503, 502, 0}).Draw(rt, "failure-kind"))
@@ -257,7 +280,7 @@ func vfC07GenCase(rt *rapid.T, c *vfxCfg, thorough bool) (k vfC07Case, eff int64
 	} else if c.Compression >= 0 {
 		k.AcceptEn = "identity" // keeps the (empty) response of request-direction cases out of the compressor
 	}
-	if k.Encoding == "chunked" {
+	if k.Encoding == "chunked" || (k.Encoding == "cut" && k.Dir == "req") {
 		n := rapid.IntRange(0, 3).Draw(rt, "nchunks")
 		for i := 0; i < n; i++ {
 			k.Chunks = append(k.Chunks, rapid.IntRange(1, 70000).Draw(rt, "chunk"))
@@ -313,6 +336,9 @@ func TestVerifC07Limits(t *testing.T) {
 				q.Body, q.Framing, q.Chunks = body, k.Encoding, k.Chunks
 				if k.Encoding == "lying" {
 					q.LieExtra = k.LieExtra
+				}
+				if k.Encoding == "cut" {
+					q.Framing, q.CutTornChunk, q.LieExtra = "chunked-cut", k.CutAt == 0, k.LieExtra
 				}
 			} else {
 				sc.Body, sc.Framing, sc.Split, sc.LieExtra = body, k.Encoding, k.Split, k.LieExtra
@@ -412,8 +438,13 @@ func vfC07Judge(rt *rapid.T, vf *vfCollector, rig *vfxRig, cfg, prev *vfxCfg, k 
 		"memoryCache": cfg.MemCache != nil, "after-hot-update": k.UpdateAt > 0 && rep >= k.UpdateAt, "resp-memoryCache-repeated": cfg.MemCache != nil && k.Dir == "resp" && rep > 0,
 		"resp-memoryCache-hit(backend-not-contacted)": cfg.MemCache != nil && k.Dir == "resp" && rep > 0 && len(seen) == 0,
 		"resp-compressed": compressed, "resp-compressed-lying": compressed && k.Encoding == "lying", "resp-compressed-over": compressed && over,
-		"resp-chunked-body-cut": k.Encoding == "cut", "resp-chunked-body-cut:only-terminating-chunk-missing": k.Encoding == "cut" && k.CutAt < 0,
-		"resp-chunked-body-cut-buffered-below-limit": k.Encoding == "cut" && eff >= 0 && !over, "resp-chunked-body-cut-stream": k.Encoding == "cut" && eff < 0,
+		"req-local-backend(mock)": k.Local, "req-local-backend-short-declared-body": k.Local && k.Encoding == "lying", "req-local-backend-chunked-upload-cut": k.Local && k.Encoding == "cut",
+		"req-local-backend-chunked-upload-cut-after-exactly-limit-bytes": k.Local && k.Encoding == "cut" && eff >= 0 && int64(k.Size) == eff,
+		"req-chunked-upload-cut": k.Dir == "req" && k.Encoding == "cut", "req-chunked-upload-cut:terminating-chunk-missing": k.Dir == "req" && k.Encoding == "cut" && k.CutAt < 0, "req-chunked-upload-cut:torn-inside-chunk": k.Dir == "req" && k.Encoding == "cut" && k.CutAt == 0,
+		"req-chunked-upload-cut-after-exactly-limit-bytes": k.Dir == "req" && k.Encoding == "cut" && eff >= 0 && int64(k.Size) == eff, "req-chunked-upload-cut-after-limit-1-bytes": k.Dir == "req" && k.Encoding == "cut" && eff > 0 && int64(k.Size) == eff-1,
+		"req-chunked-upload-cut-after-limit+1-bytes": k.Dir == "req" && k.Encoding == "cut" && eff >= 0 && int64(k.Size) == eff+1, "req-chunked-upload-cut-stream": k.Dir == "req" && k.Encoding == "cut" && eff < 0,
+		"resp-chunked-body-cut": k.Dir == "resp" && k.Encoding == "cut", "resp-chunked-body-cut:only-terminating-chunk-missing": k.Dir == "resp" && k.Encoding == "cut" && k.CutAt < 0,
+		"resp-chunked-body-cut-buffered-below-limit": k.Dir == "resp" && k.Encoding == "cut" && eff >= 0 && !over, "resp-chunked-body-cut-stream": k.Dir == "resp" && k.Encoding == "cut" && eff < 0,
 		"mirrorPool": cfg.Mirror, "mirrored-request": k.Mirrored, "mirrored-request:copy-seen-by-mirror-server": mirrorCopies > 0, "mirrored-request:copy-not-seen-within-join-wait": k.Mirrored && len(seen) > 0 && mirrorCopies == 0,
 		"req-mirrored-with-body": k.Dir == "req" && k.Mirrored && k.Size > 0, "req-mirrored-stream-with-body": k.Dir == "req" && k.Mirrored && eff < 0 && k.Size > 0 && k.Encoding != "lying",
 		"server-spec-reloaded": prev != nil, "req-after-server-spec-reload": k.Dir == "req" && prev != nil,
@@ -444,6 +475,28 @@ func vfC07Judge(rt *rapid.T, vf *vfCollector, rig *vfxRig, cfg, prev *vfxCfg, k 
 
 	if k.Dir == "req" {
 		switch {
+		case k.Local && eff < 0 && (k.Encoding == "cut" || k.Encoding == "lying"):
+			// (only after an update of the HTTPServer spec made the path stream) nobody reads a streamed
+			// body here: its shortfall is known to nobody, any answer is accepted
+			vf.Class("ambiguous-local-backend-never-reads-streamed-short-body")
+		case k.Encoding == "cut":
+			// k.Size bytes were sent in chunks, then the client half-closed where the chunk framing
+			// promised more (the rest of a chunk, or at least the terminating chunk): shorter than declared
+			how := "without the terminating chunk"
+			if k.CutAt == 0 {
+				how = fmt.Sprintf("inside a chunk that announced %d more bytes", k.LieExtra)
+			}
+			if !noResponse && resp.Status < 400 {
+				return fail("req-cut-chunked-body-success", "chunked request body torn after %d bytes (%s; effective clientMaxBodySize %d): client got %d, not an error status", k.Size, how, eff, resp.Status)
+			}
+			if over && len(seen) != 0 {
+				return fail("req-over-limit-reached-backend", "chunked request body of %d bytes (torn %s) exceeds the effective clientMaxBodySize %d but the backend was contacted %d times", k.Size, how, eff, len(seen))
+			}
+			for _, s := range seen {
+				if s.BodyErr == nil {
+					return fail("req-cut-chunked-body-forwarded-as-complete", "chunked request body torn after %d bytes (%s; effective clientMaxBodySize %d), yet the backend read a complete body of %d bytes", k.Size, how, eff, len(s.Body))
+				}
+			}
 		case k.Encoding == "lying":
 			// fewer bytes than declared, then the client half-closes
 			if declaredOver {
@@ -466,6 +519,15 @@ func vfC07Judge(rt *rapid.T, vf *vfCollector, rig *vfxRig, cfg, prev *vfxCfg, k 
 			}
 			if len(seen) != 0 {
 				return fail("req-over-limit-reached-backend", "request body of %d bytes (%s) exceeds the effective clientMaxBodySize %d but the backend was contacted %d times", k.Size, k.Encoding, eff, len(seen))
+			}
+		case k.Local:
+			// the local backend answers 200 by itself whatever it is given
+			if resp.Status != 200 {
+				key := "req-within-limit-rejected"
+				if eff < 0 {
+					key = "req-stream-rejected"
+				}
+				return fail(key, "request body of %d bytes (%s) is within the effective clientMaxBodySize %d of the path with the local backend: client got %d, want its 200", k.Size, k.Encoding, eff, resp.Status)
 			}
 		case len(k.Pre) > 0:
 			// the first attempts failed after the backend had read the request. Every attempt that
